@@ -24,6 +24,9 @@ func (m *ModbusTCPAssembler) ReceiveRead(ctx context.Context, received []byte, b
 		return err.(*packet.ErrorParseTCP).Bytes(), false
 	}
 
+	if m.received.Len() < n {
+		return nil, false // wait for the rest of the packet to arrive
+	}
 	p, err := packet.ParseTCPRequest(m.received.Next(n))
 	if err != nil {
 		return err.(*packet.ErrorParseTCP).Bytes(), false
